@@ -510,8 +510,13 @@ func choose(fs []finding) finding {
 
 func libWrite(c *mc.Ctx, m *afm.Metrics) (string, error) {
 	var buf bytes.Buffer
+	before := observe.Dump(m)
 	err := m.Write(&buf)
 	c.Step()
+	if err == nil && observe.Dump(m) != before {
+		// writing is an observation: the value handed to Write is what it was before
+		return buf.String(), fmt.Errorf("C15 harness observation: Metrics.Write changed the metrics value it was given (before %s, after %s)", before, observe.Dump(m))
+	}
 	return buf.String(), err
 }
 
